@@ -38,6 +38,9 @@ pub(crate) struct GrammarBuilder {
     terminals: BTreeMap<String, Terminal>,
     terminals_matches: BTreeMap<String, (String, TermIndex)>,
     nonterminals: BTreeMap<String, NonTerminal>,
+    /// Names of the rules given in the grammar. Used to detect a collision
+    /// with the names of the rules created for repetitions.
+    rule_names: BTreeSet<String>,
     productions: ProdVec<Production>,
     next_term_idx: TermIndex,
     next_nonterm_idx: NonTermIndex,
@@ -52,6 +55,7 @@ impl GrammarBuilder {
             terminals: BTreeMap::new(),
             terminals_matches: BTreeMap::new(),
             nonterminals: BTreeMap::new(),
+            rule_names: BTreeSet::new(),
             productions: ProdVec::new(),
             next_term_idx: TermIndex(0),
             next_nonterm_idx: NonTermIndex(0),
@@ -255,6 +259,8 @@ impl GrammarBuilder {
         if let Some(layout_rule) = layout_rule {
             self.create_aug_nt_and_production("AUGL", layout_rule.name.as_ref());
         }
+
+        self.rule_names = rules.iter().map(|r| r.name.as_ref().clone()).collect();
 
         for rule in rules {
             self.check_identifier(&rule.name)?;
@@ -512,6 +518,30 @@ impl GrammarBuilder {
                     }
                 }
             };
+
+            // The rules created for the repetition must not be mixed up with
+            // the rules of the same name given in the grammar.
+            let helper_names = match op.rep_op {
+                RepetitionOperatorOp::ZeroOrMore => vec![
+                    nt_name(&ref_type, &RepetitionOperatorOp::OneOrMore),
+                    nt_name(&ref_type, &op.rep_op),
+                ],
+                _ => vec![nt_name(&ref_type, &op.rep_op)],
+            };
+            for helper_name in helper_names {
+                if self.rule_names.contains(helper_name.as_ref())
+                    || self.terminals.contains_key(helper_name.as_ref())
+                {
+                    return err!(
+                        format!(
+                            "'{}' has the name of the rule created for a repetition of '{}'.",
+                            helper_name, ref_type
+                        ),
+                        Some(self.file.clone()),
+                        ref_type.span
+                    );
+                }
+            }
 
             match op.rep_op {
                 RepetitionOperatorOp::ZeroOrMore => {
